@@ -120,13 +120,13 @@ theorem no_metadata_is_nil (dbs : List Bytes) (h : ∀ db ∈ dbs, isMetaDoc db 
 /-- metadata is emitted as its own type-0 document ahead of the chunk it describes -/
 theorem metadata_emitted_first (c : Better) (md ref : BDoc) (hm : c.metadata = some md)
     (hr : c.ref = some ref) :
-    c.resolve = some [.metaDoc c.startedAt md, .chunk c.startedAt (payloadOf ref c.first c.rows)] := by
+    c.resolve = some [.metaDoc c.startedAt md, .chunk c.startedAt ref c.first c.rows] := by
   simp [Better.resolve, hm, hr]
 
 /-- without metadata the output is the chunk alone -/
 theorem no_metadata_no_document (c : Better) (ref : BDoc) (hm : c.metadata = none)
     (hr : c.ref = some ref) :
-    c.resolve = some [.chunk c.startedAt (payloadOf ref c.first c.rows)] := by
+    c.resolve = some [.chunk c.startedAt ref c.first c.rows] := by
   simp [Better.resolve, hm, hr]
 
 /-- metadata is never mixed into the samples: the chunk payload does not depend on it -/
